@@ -596,6 +596,32 @@ fn type_correction(ctx: &mut Context) -> Result<(), IrError> {
                             }
                         }
                     }
+                    InstOp::Branch(to_block) => {
+                        // The value passed to a block argument can be a pointer to what
+                        // should've been passed (e.g., a `ref mut` parameter being the value
+                        // of an `if` branch or a `match` arm). So we just load the value.
+                        let formal_tys: Vec<_> = to_block
+                            .block
+                            .arg_iter(ctx)
+                            .map(|arg| arg.get_type(ctx).unwrap())
+                            .collect();
+                        for (arg_idx, (actual_arg, formal_ty)) in
+                            to_block.args.iter().zip(formal_tys.iter()).enumerate()
+                        {
+                            let actual_ty = actual_arg.get_type(ctx).unwrap();
+                            if actual_ty
+                                .get_pointee_type(ctx)
+                                .is_some_and(|pointee| pointee == *formal_ty)
+                            {
+                                instrs_to_fix.push(TypeCorrection {
+                                    actual_ty,
+                                    expected_ty: *formal_ty,
+                                    use_instr: instr,
+                                    use_idx: arg_idx,
+                                });
+                            }
+                        }
+                    }
                     InstOp::Ret(ret_val, ret_ty) => {
                         if let Some(ret_val_pointee_ty) = ret_val
                             .get_type(ctx)
